@@ -6,21 +6,34 @@ import AttrsModel.Proofs.C10Obs
 namespace Attrs.C10
 
 theorem known_nil {c : Case} (h : known c = []) (hl : isLegacy c.op = false) :
-    k1 (summarize c.chain) = false ∧ k2 (summarize c.chain) = false ∧ k4 (summarize c.chain) = false ∧
-    k5 (summarize c.chain) c = false ∧ k10a (summarize c.chain) c.op = false ∧
-    k10c (summarize c.chain) = false ∧ dfltFails (summarize c.chain) c = false := by
+    k1 (summarize c.chain) = false ∧ k2 (summarize c.chain) = false ∧
+    k5 (summarize c.chain) c = false ∧ optOutLoses (summarize c.chain) = false ∧
+    dfltFails (summarize c.chain) c = false := by
   unfold known at h
   simp only [hl, Bool.false_eq_true, if_false] at h
   generalize k1 (summarize c.chain) = a1 at *
   generalize k2 (summarize c.chain) = a2 at *
-  generalize k4 (summarize c.chain) = a4 at *
   generalize k5 (summarize c.chain) c = a5 at *
-  generalize k10a (summarize c.chain) c.op = a10a at *
-  generalize k10c (summarize c.chain) = a10c at *
+  generalize optOutLoses (summarize c.chain) = a4 at *
   generalize dfltFails (summarize c.chain) c = d at *
   generalize optedOut c = o at *
-  cases a1 <;> cases a2 <;> cases a4 <;> cases a5 <;> cases a10a <;> cases a10c <;> cases d <;> cases o <;>
-    simp at h ⊢
+  cases a1 <;> cases a2 <;> cases a4 <;> cases a5 <;> cases d <;> cases o <;> simp at h ⊢
+
+/-- after the repair an attrs class resolves a pair generated for a base only by opting out itself, so outside
+    the opt-out finding the resolved pair covers every field and the hash cache -/
+theorem inh_false {s : Summary} (I : Inv s) (hla : s.lastAttrs = true) (h : optOutLoses s = false) :
+    inhLosesFields s = false ∧ inhLosesCache s = false := by
+  cases hg : s.gs with
+  | dflt => simp [inhLosesFields, inhLosesCache, hg]
+  | user => simp [inhLosesFields, inhLosesCache, hg]
+  | gen ns ch ow =>
+    cases ow with
+    | true => simp [inhLosesFields, inhLosesCache, hg]
+    | false =>
+      have := I.gsInherited hla _ _ hg
+      unfold optOutLoses at h
+      rw [this] at h
+      simpa using h
 
 /-- everything the theorems need about one non-legacy case -/
 structure Run (c : Case) (x f y : Inst) : Prop where
@@ -37,7 +50,8 @@ theorem run_of_wf {c : Case} (hwf : wf c = true) (hk : known c = []) (hl : isLeg
       read (summarize c.chain).layout f CACHE = read (summarize c.chain).layout i0 CACHE := by
   obtain ⟨i0, W⟩ := wf_unpack hwf
   have I := inv_summarize c.chain
-  obtain ⟨_, _, hk4, _, _, _, hdf⟩ := known_nil hk hl
+  obtain ⟨_, _, _, hoo, hdf⟩ := known_nil hk hl
+  have hk4 := (inh_false I W.lastAttrs hoo).1
   obtain ⟨x, hxe, hx, hcx⟩ := history_spec I W c.hashedBefore
   obtain ⟨f, hfe, hf, hcf⟩ := history_spec I W false
   have hd : (summarize c.chain).gs = .dflt →
